@@ -61,6 +61,18 @@ def r1(ctx: Ctx) -> None:
     for st in rect_stores:
         ctx.report(f.where, f"non-rigid-write {show(st)[:120]}", "a rectangle centre of a hard module is written other than by the module-wide translation (recenter_rectangles) or the "
                    "reflection about the module centre: rectangles of one module can move by different amounts, i.e. the module is reshaped", lineno=f.node.lineno)
+    # the module centre is read back from the model's own (x, y) pair of that module
+    from .common import sigma_xy
+    cwr = [st for st in atoms_of(cfun, lambda x: x[0] == "set" and len(x) == 3 and x[1][0] == "a" and x[1][2] == "center" and x[1][1][0] == "v")
+           if st[2][0] == "c" and st[2][1] == ("g", "Point") and len(st[2][2]) == 2]
+    ctx.site(f.where, "module centre = Point(value of the module's x variable, value of its y variable)", writes=len(cwr))
+    for st in cwr:
+        a, b = st[2][2]
+        if sigma_xy().apply(a) != b or not contains(a, "x") or a == b:
+            ctx.report(f.where, f"centre-readback {show(st[2])[:120]}", "the centre of a module is not read back as (its x variable, its y variable): the reported centre "
+                       "can lie outside the die although both variables are bounded by it", lineno=f.node.lineno)
+    if not cwr:
+        raise AnalysisError("extract_solution: the statement that reads the module centre back from the model was not found")
     # no shape writes in the whole optimiser
     n_shape = 0
     for fn in ctx.model.all_functions():
